@@ -1,13 +1,28 @@
 """Worker process: python -m qv.worker <check> <in.json> <out.jsonl>."""
+import ctypes
 import faulthandler
 import importlib
 import json
+import os
 import sys
 import traceback
 
 
+def install_arena_cache():
+    so = os.path.join(os.path.dirname(os.path.dirname(os.path.abspath(__file__))), '.deps',
+                      'arenacache.so')
+    if os.environ.get('QV_NO_ARENACACHE') or not os.path.exists(so):
+        return False
+    try:
+        ctypes.CDLL(so, mode=ctypes.RTLD_GLOBAL).arenacache_install()
+        return True
+    except Exception:
+        return False
+
+
 def main():
     check, inp, outp = sys.argv[1:4]
+    install_arena_cache()
     faulthandler.enable()
     faulthandler.dump_traceback_later(1500, exit=False)
     sys.setrecursionlimit(3000)
